@@ -1,5 +1,7 @@
 (* C14: the two formula decoders (extracted Ptg model), the encoders and the rendering spec.
      ptg     xls  SHEETS NAMES XTIS HEX      model outcome on raw bytes (same format as vh ptg)
+             xls@R:C …                       the same with the base cell (R, C) of a shared formula
+                                             (PtgRefN / PtgAreaN are decoded relative to it)
      ptg     xlsb SHEETS NAMES HEX
      ptg_ast xls  SHEETS NAMES XTIS AST…     ->  hex(encoding)|model|spec|known|wf
      ptg_ast xlsb SHEETS NAMES AST…
@@ -144,6 +146,8 @@ let parse_ast (toks : string array) : expr =
     | "ref3" -> let kk = k () in let ix = n () in let a = cref () in ERef3d (kk, ix, a)
     | "area3" -> let kk = k () in let ix = n () in let a = cref () in let bb = cref () in
       EArea3d (kk, ix, a, bb)
+    | "refn" -> let kk = k () in let a = cref () in ERefN (kk, a)
+    | "arean" -> let kk = k () in let a = cref () in let bb = cref () in EAreaN (kk, a, bb)
     | "name" -> let kk = k () in let ix = n () in EName (kk, ix)
     | "int" -> let v = n () in EInt v
     | "num" -> let v = n () in ENum v
@@ -171,10 +175,20 @@ let parse_ast (toks : string array) : expr =
 
 let opt_n (o : BinNums.coq_N option) = match o with Some v -> string_of_n v | None -> "-"
 
+(* "xls" or "xls@R:C" -> the base cell *)
+let xls_base (fmt : string) : (BinNums.coq_N * BinNums.coq_N) option option =
+  if fmt = "xls" then Some None
+  else if String.length fmt > 4 && String.sub fmt 0 4 = "xls@" then
+    (match String.split_on_char ':' (String.sub fmt 4 (String.length fmt - 4)) with
+     | [r; c] -> Some (Some (n_of_string r, n_of_string c))
+     | _ -> None)
+  else None
+
 let run_raw (args : string list) : string =
   match args with
-  | ["xls"; sh; nm; xt; hex] ->
-    let env = { xe_sheets = name_list sh; xe_names = name_list nm; xe_xtis = xti_list xt } in
+  | [fmt; sh; nm; xt; hex] when xls_base fmt <> None ->
+    let base = (match xls_base fmt with Some b -> b | None -> None) in
+    let env = { xe_sheets = name_list sh; xe_names = name_list nm; xe_xtis = xti_list xt; xe_base = base } in
     out_str (xls_parse_formula show_f64 env (bytes_of_hex hex))
   | ["xlsb"; sh; nm; hex] ->
     let env = { be_sheets = name_list sh; be_names = name_list nm } in
@@ -183,8 +197,9 @@ let run_raw (args : string list) : string =
 
 let run_ast (args : string list) : string =
   match args with
-  | "xls" :: sh :: nm :: xt :: ast :: _ ->
-    let env = { xe_sheets = name_list sh; xe_names = name_list nm; xe_xtis = xti_list xt } in
+  | fmt :: sh :: nm :: xt :: ast :: _ when xls_base fmt <> None ->
+    let base = (match xls_base fmt with Some b -> b | None -> None) in
+    let env = { xe_sheets = name_list sh; xe_names = name_list nm; xe_xtis = xti_list xt; xe_base = base } in
     let ex = parse_ast (Array.of_list (String.split_on_char ' ' ast)) in
     (* the model runs on exactly the bytes that travel (an ill-formed AST may yield values > 255) *)
     let bytes = bytes_of_hex (hex_of_bytes (frame_xls (encode_xls ex))) in
